@@ -273,6 +273,30 @@ func TestC17_Lockstep(t *testing.T) {
 				m.db[ns+k] = v
 				checkGet(k)
 			},
+			// overwrite of a live key with a different value of the same length (what an in-place
+			// update optimisation would look like from outside)
+			"putSameLen": func(t *rapid.T) {
+				var live []string
+				for _, k := range keyParts {
+					if v, ok := m.db[ns+k]; ok && len(v) > 0 {
+						live = append(live, k)
+					}
+				}
+				if len(live) == 0 {
+					t.Skip("no live non-empty key")
+				}
+				k := rapid.SampledFrom(live).Draw(t, "k")
+				v := append([]byte{}, m.db[ns+k]...)
+				v[rapid.IntRange(0, len(v)-1).Draw(t, "at")] ^= byte(1 + rapid.IntRange(0, 254).Draw(t, "xor"))
+				col.op("putSameLen", fmt.Sprintf("%q=%x", k, v))
+				for _, b := range backends {
+					if err := b.s.Put(full(k), v); err != nil {
+						fail("C17/put-error/"+b.name, err.Error())
+					}
+				}
+				m.db[ns+k] = v
+				checkGet(k)
+			},
 			"delete": func(t *rapid.T) {
 				k := genKey(t, "k")
 				col.op("delete", fmt.Sprintf("%q", k))
